@@ -170,3 +170,22 @@ def expr_vars(e, acc=None):
     elif e[0] in ("pow", "neg"):
         expr_vars(e[1], acc)
     return acc
+
+
+def rename_vars(node, mapping):
+    """deep copy of an AST node with variables renamed"""
+    if isinstance(node, dict):
+        return {"types": [[mapping.get(v, v), t, list(ps)] for v, t, ps in node.get("types", [])],
+                "init": rename_vars(node["init"], mapping), "guard": rename_vars(node["guard"], mapping),
+                "body": rename_vars(node["body"], mapping)}
+    if isinstance(node, list):
+        if node and node[0] == "var" and len(node) == 2 and isinstance(node[1], str):
+            return ["var", mapping.get(node[1], node[1])]
+        if node and node[0] == "assign":
+            return ["assign", mapping.get(node[1], node[1]), rename_vars(node[2], mapping)]
+        if node and node[0] == "simul":
+            return ["simul", [mapping.get(v, v) for v in node[1]], [rename_vars(r, mapping) for r in node[2]]]
+        if node and node[0] == "num":
+            return list(node)
+        return [rename_vars(x, mapping) for x in node]
+    return node
